@@ -201,6 +201,13 @@ def make(interp):
         xs = interp.iterate(A.from_value(x)); out = []; acc = 1
         for v in xs: acc = interp.binop("Mult", acc, v); out.append(acc)
         return arr_from_list(out)
+    def prod(x, axis=None, dtype=None):
+        """np.prod / jnp.prod of a vector of concrete length: the finite product (mathematical integers, the stated assumption)"""
+        if axis not in (None, 0, -1): raise Unsupported("prod with axis")
+        acc = 1
+        for v in interp.iterate(A.from_value(x)): acc = interp.binop("Mult", acc, v)
+        return acc
+    jnp["prod"] = B(prod, "numpy.prod")
     def append(a, v): return A.concat([A.from_value(a), A.from_value(v) if isinstance(v, (list, tuple, SArr)) else arr_from_list([v])], 0)
     class _R:                      # np.r_[a, b, ...]: concatenation of scalars and 1-D arrays
         pass
